@@ -15,6 +15,10 @@ events   ['open', h, proc, project, release | None, generation | None (, h')]   
          ['look', h]                                                     handle.instance.tag, then State.load of every state
          ['die', event, where, cut]                                      the process dies inside that event (all its handles
                                                                          and caches are gone), the history goes on
+         ['fault', event, where, e]                                      a transient OSError (c05.FAULT_ERRNOS[e]) is raised
+                                                                         once by one of the file-system calls of that event
+                                                                         (publish / dump / commit through a handle with an
+                                                                         explicit release key); the process lives on
 
 After every event a reader in a *fresh process* lists and reads everything (view) and the raw tree is read.  The tree a
 process death can leave is explored by forking the process that is about to perform the operation (the copy has the very
@@ -117,13 +121,13 @@ class _Handle:
         self.sids: list = []
 
 
-def _perform(root: str, handles: dict, uuids, ev: list, crash_at, cut: bool, registry=None):
-    """one event on the real code inside the current process -> dict(outcome, calls, look, sid, crashed)"""
+def _perform(root: str, handles: dict, uuids, ev: list, crash_at, cut: bool, registry=None, fault=None):
+    """one event on the real code inside the current process -> dict(outcome, calls, look, sid, crashed, hit, ncalls)"""
     from forml.io import asset
     from forml.provider.registry.filesystem import posix
 
     kind, h = ev[0], ev[1]
-    out = {'outcome': 'ok', 'calls': [], 'look': None, 'sid': None, 'crashed': False}
+    out = {'outcome': 'ok', 'calls': [], 'look': None, 'sid': None, 'crashed': False, 'hit': None, 'ncalls': 0}
     if kind == 'open':
         proj, rel, gen = ev[3:6]
         try:
@@ -135,7 +139,7 @@ def _perform(root: str, handles: dict, uuids, ev: list, crash_at, cut: bool, reg
     if handle is None:
         out['outcome'] = 'dead'
         return out
-    rec = c05.Recorder(root, crash_at, cut)
+    rec = c05.Recorder(root, crash_at, cut, fault)
     saved_uuid4 = uuid.uuid4
     saved = {m: getattr(posix.Registry, m) for m in ('write', 'close', 'push')}
 
@@ -194,6 +198,7 @@ def _perform(root: str, handles: dict, uuids, ev: list, crash_at, cut: bool, reg
             setattr(posix.Registry, m, f)
         uuid.uuid4 = saved_uuid4
     out['calls'] = rec.calls
+    out['hit'], out['ncalls'] = rec.hit, rec.ncalls
     return out
 
 
@@ -208,18 +213,18 @@ def _child_main(root: str, index: int, rfd: int, wfd: int) -> None:
             return
         if msg[0] == 'exit':
             return
-        _, ev, crash_at, cut, forked = msg
+        _, ev, crash_at, cut, forked, fault = msg
         if forked:  # a copy of this process (same handles, same caches) performs the event and is gone
             pid = os.fork()
             if pid == 0:
                 try:
-                    _send(wfd, _perform(root, handles, uuids, ev, crash_at, cut))
+                    _send(wfd, _perform(root, handles, uuids, ev, crash_at, cut, fault=fault))
                 finally:
                     os._exit(0)
             os.waitpid(pid, 0)
             continue
         try:
-            reply = _perform(root, handles, uuids, ev, crash_at, cut)
+            reply = _perform(root, handles, uuids, ev, crash_at, cut, fault=fault)
         except BaseException as exc:  # pylint: disable=broad-except
             reply = {'machinery': f'{type(exc).__name__}: {exc}'}
         _send(wfd, reply)
@@ -242,8 +247,8 @@ class Proc:
         self.wfd, self.rfd = w1, r2
         self.alive = True
 
-    def do(self, ev, crash_at=None, cut=False, forked=False) -> dict:
-        _send(self.wfd, ('do', ev, crash_at, cut, forked))
+    def do(self, ev, crash_at=None, cut=False, forked=False, fault=None) -> dict:
+        _send(self.wfd, ('do', ev, crash_at, cut, forked, fault))
         reply = _recv(self.rfd)
         if 'machinery' in reply:
             raise RuntimeError('writer process failed: ' + reply['machinery'])
@@ -310,7 +315,7 @@ def run_handles(history: list, crash_points=False, only=None) -> dict:
 
     view, tree = read()
     res = {'history': history, 'events': [], 'outcomes': [], 'traces': [], 'looks': [], 'views': [view], 'trees': [tree],
-           'crashes': [], 'died': {}}
+           'crashes': [], 'died': {}, 'faulted': {}}
 
     def skip(ev, die, outcome):
         if ev[0] == 'dump':
@@ -328,7 +333,8 @@ def run_handles(history: list, crash_points=False, only=None) -> dict:
     try:
         for i, item in enumerate(history):
             die = item[0] == 'die'
-            ev = item[1] if die else item
+            faulty = item[0] == 'fault'
+            ev = item[1] if die or faulty else item
             h = ev[1]
             if ev[0] == 'open':
                 if ev[2] not in procs or not procs[ev[2]].alive:
@@ -340,6 +346,33 @@ def run_handles(history: list, crash_points=False, only=None) -> dict:
                 skip(ev, die, 'dead')
                 continue
             writing = ev[0] in ('publish', 'dump', 'commit')
+            if faulty and writing:
+                snap = os.path.join(root, f'snap{i}')
+                shutil.copytree(live, snap)
+                base = proc.do(ev, forked=True, fault='log')  # the file-system calls of the operation (on a copy)
+                _restore(live, snap)
+                shutil.rmtree(snap, ignore_errors=True)
+                if base['ncalls']:
+                    where, eidx = item[2], item[3] % len(c05.FAULT_ERRNOS)
+                    idx = min(int(where * base['ncalls']), base['ncalls'] - 1) if isinstance(where, float) \
+                        else min(where, base['ncalls'] - 1)
+                    reply = proc.do(ev, fault=(idx, c05.FAULT_ERRNOS[eidx]))
+                    hit = reply['hit'] or {'kind': None, 'done': 0, 'lenient': True, 'errno': None, 'index': idx}
+                    view, tree = read()
+                    full = ['dump', h, base['sid'], ev[2]] if ev[0] == 'dump' else ev
+                    if reply['outcome'] == 'ok':  # absorbed: for the model the plain event
+                        res['events'].append(full)
+                        res['outcomes'].append('ok')
+                        res['traces'].append(c05._canon_calls(reply['calls']))
+                    else:
+                        res['events'].append(['fault', full, hit['done']])
+                        res['outcomes'].append('faulted')
+                        res['traces'].append(None)
+                    res['looks'].append(None)
+                    res['views'].append(view)
+                    res['trees'].append(tree)
+                    res['faulted'][i] = dict(hit, outcome=reply['outcome'], e=eidx)
+                    continue
             explore = writing and ((crash_points is True or ev[0] in (crash_points or ())) if only is None else only[0] == i)
             base = complete = None
             if writing and (die or explore):
@@ -436,9 +469,15 @@ def corpus() -> list:
         [['open', 1, 1, 1, 2, None], ['begin', 1, 1, 1], ['dump', 1, [1]], ['look', 1], ['open', 0, 0, 1, None, None],
          ['publish', 0, 1, 2, 'dir'], ['dump', 1, [2]], ['commit', 1], ['publish', 0, 1, 2, 'file'], ['publish', 0, 1, 1, 'file'],
          ['publish', 0, 0, 5, 'file'], ['publish', 0, 1, 4, 'file']] + train(1, 2, s2) + [['look', 1]],
-        # a publisher dies while copying a tree; another process retries; explicit generation keys
-        [['open', 0, 0, 0, None, None], ['die', ['publish', 0, 0, 1, 'dir'], 4, False], ['open', 1, 1, 0, None, 1],
-         ['publish', 1, 0, 1, 'dir'], ['look', 1]] + train(1, 1, s1) + [['look', 1], ['open', 2, 1, 0, 1, 2], ['look', 2]]
+        # transient I/O faults: in the listing scan right before the commit, in a move, in the tag write — the process lives on,
+        # another writer commits in between, the commit is tried again; a faulted dump is repeated; a faulted rebuild publish
+        pub + [['open', 1, 1, 0, 1, None], ['open', 2, 2, 0, 1, None]] + train(1, 1, s1) + train(1, 2, s2)[:-1]
+        + [['fault', ['commit', 1], 0.45, 0]] + train(2, 3, s1) + [['fault', ['commit', 1], 0.9, 2], ['commit', 1], ['begin', 2, 4, 1],
+           ['fault', ['dump', 2, [7]], 0.6, 1], ['dump', 2, [7]], ['commit', 2], ['open', 3, 1, 0, 1, None],
+           ['fault', ['publish', 3, 0, 3, 'dir'], 0.75, 3], ['publish', 3, 0, 3, 'dir2'], ['look', 1], ['look', 2]],
+        # a publisher dies while copying a tree, the REBUILT package is published by another process; explicit generation keys
+        [['open', 0, 0, 0, None, None], ['die', ['publish', 0, 0, 1, 'dir'], 7, False], ['open', 1, 1, 0, None, 1],
+         ['publish', 1, 0, 1, 'dir2'], ['look', 1]] + train(1, 1, s1) + [['look', 1], ['open', 2, 1, 0, 1, 2], ['look', 2]]
         + train(2, 2, s1) + [['look', 2], ['look', 1]],
     ]
 
@@ -476,7 +515,7 @@ def random_handles(rng) -> list:
     listed = {p: [] for p in projs}  # ranks believed published
     handles: dict = {}  # h -> {'proc', 'proj'}
     alive: set = set()  # process ids alive
-    nproc = ndie = 0
+    nproc = ndie = nfault = 0
     ordinal = 0
     running: list = []  # [handle, remaining events]
 
@@ -498,7 +537,7 @@ def random_handles(rng) -> list:
                 rel = rng.choice(alts) if alts and rng.random() < 0.15 else rank
         gen = None if rng.random() < 0.85 else rng.randint(1, 3)
         mates = [m for m, d in handles.items() if d['proc'] == proc]
-        handles[h] = {'proc': proc, 'proj': proj}
+        handles[h] = {'proc': proc, 'proj': proj, 'explicit': rel is not None}
         out.append(['open', h, proc, proj, rel, gen] + ([rng.choice(mates)] if mates and rng.random() < 0.5 else []))
         return h
 
@@ -510,8 +549,14 @@ def random_handles(rng) -> list:
         return new_handle(proj)
 
     def emit(ev):
-        nonlocal ndie
+        nonlocal ndie, nfault
         h = ev[1]
+        if ev[0] in ('publish', 'dump', 'commit') and handles[h]['explicit'] and nfault < 3 and rng.random() < 0.08:
+            nfault += 1  # a transient I/O fault: the operation raises, the process lives on and (mostly) tries again
+            out.append(['fault', ev, rng.random(), rng.randrange(len(c05.FAULT_ERRNOS))])
+            if ev[0] == 'dump' or rng.random() < 0.75:
+                out.append(ev)
+            return True
         if ev[0] in ('publish', 'dump', 'commit') and ndie < 2 and rng.random() < 0.07:
             ndie += 1
             out.append(['die', ev, rng.random(), rng.random() < 0.3])
@@ -537,7 +582,7 @@ def random_handles(rng) -> list:
                     vidx = rng.choice(have) if have and rng.random() < 0.5 else rng.randrange(len(VERSIONS))
                 name = proj if rng.random() < 0.92 else rng.choice([0, 1, 2])
                 h = pick(proj)
-                if emit(['publish', h, name, vidx, rng.choice(['file', 'file', 'dir'])]) \
+                if emit(['publish', h, name, vidx, rng.choice(['file', 'file', 'dir', 'dir2'])]) \
                         and name == proj and (not have or vidx > max(have)):
                     have.append(vidx)
             elif roll < 0.32:
@@ -592,7 +637,7 @@ def judge(chk, r, crash_only=False) -> None:
         if r.get('registry') == 'volatile':
             wit['registry'] = 'volatile'
         die = ev[0] == 'die'
-        op = ev[1] if die else ev
+        op = ev[1] if ev[0] in ('die', 'fault') else ev
         kind, h = op[0], op[1]
         if kind == 'open':
             state[h] = {'proc': op[2], 'proj': op[3], 'rel': None if op[4] is None else c05._rank(op[4]), 'gen': op[5],
@@ -619,7 +664,17 @@ def judge(chk, r, crash_only=False) -> None:
             nums = _gens(pa, p, v)
             if nums != list(range(1, len(nums) + 1)) and not crash_only:
                 found.append((f'generations of {p}/{v} are {nums}', 'generation-gap'))
-        if die:
+        if i in r.get('faulted', {}) and r['faulted'][i]['outcome'] != 'ok':
+            fd = r['faulted'][i]
+            chk.case(('handles-faulted', repr(hist[: i + 1])), f'handles: transient I/O fault inside {kind} ({fd["kind"]} call), '
+                     f'history goes on', nontrivial=True, sample={'handles': hist[: i + 1]})
+            found = [(f'transient {fd["errno"]} at file-system call {fd["index"]} ({fd["kind"]}, after {fd["done"]} '
+                      f'micro-operations) of the {kind} through handle {h}: {what}', sig) for what, sig in found]
+            if new or missing:
+                found.append((f'transient {fd["errno"]} at file-system call {fd["index"]} ({fd["kind"]}) of the {kind} through '
+                              f'handle {h}: it raised ({fd["outcome"]}) but {c05._short((new or missing)[0])} changed for a '
+                              f'reader', 'fault-changed-view'))
+        elif die:
             kd = r['died'][i]
             chk.case(('handles-died', repr(hist[: i + 1])), f'handles: process death inside {kind}, history goes on', nontrivial=True,
                      sample={'handles': hist[: i + 1]})
@@ -652,7 +707,7 @@ def judge(chk, r, crash_only=False) -> None:
                     found.append((w, s))
         elif kind == 'commit':
             found += _judge_commit(st, pb, new, after, h)
-        if not die:
+        if not die and ev[0] != 'fault':
             natoms = sum(len(c) for c in (r['traces'][i] or []))
             chk.case(('handles', repr(hist[: i + 1])), f'handles: {kind} -> {outcome}', nontrivial=natoms > 0 or kind == 'look',
                      sample={'handles': hist[: i + 1], 'outcome': outcome})
@@ -746,7 +801,9 @@ def model_events(events) -> list:
 
     out = []
     for e in events:
-        if e[0] == 'die':
+        if e[0] == 'fault':
+            out.append(['fault', one(e[1]), e[2]])
+        elif e[0] == 'die':
             out.append(['die', one(e[1]), e[2], None if not e[3] else e[4]])
         else:
             out.append(one(e))
@@ -755,8 +812,8 @@ def model_events(events) -> list:
 
 def _model_out(mo):
     """model outcome -> (kind, calls, look)"""
-    if mo == 'died':
-        return 'died', None, None
+    if mo in ('died', 'faulted'):
+        return mo, None, None
     if mo[0] == 'ok':
         _, calls = c05.C05._model_calls(['ok', mo[1]])
         look = mo[2]
@@ -798,7 +855,7 @@ def compare(chk, results, impl) -> None:
             for i, (mo, outcome, trace, look) in enumerate(zip(m[1], r['outcomes'], r['traces'], r['looks'])):
                 mkind, mcalls, mlook = _model_out(mo)
                 at = {'handles': hist[: i + 1], 'step': i}
-                if outcome == 'died' or mkind == 'died':
+                if outcome in ('died', 'faulted') or mkind in ('died', 'faulted'):
                     if outcome != mkind:
                         chk.diverge('handles: event kind', at, outcome, mkind)
                     continue
@@ -831,7 +888,7 @@ def run_handles_volatile(history: list) -> dict:
     handles: dict = {}
     uuids = c05._Uuids(0)
     view = c05.C05._volatile_view(asset.Directory(registry))
-    res = {'history': [e[1] if e[0] == 'die' else e for e in history], 'events': [], 'outcomes': [], 'traces': [], 'looks': [],
+    res = {'history': [e[1] if e[0] in ('die', 'fault') else e for e in history], 'events': [], 'outcomes': [], 'traces': [], 'looks': [],
            'views': [view], 'trees': [None], 'crashes': [], 'died': {}, 'registry': 'volatile'}
     for ev in res['history']:
         if ev[0] == 'publish':
